@@ -267,7 +267,8 @@ class AbstractDimension:
         return float(self) == other
 
     def __hash__(self):
-        return hash((self._value, self._defined_units))
+        # hash the base-unit magnitude only: consistent with __eq__ and independent of the display unit
+        return hash(self._value)
 
     def __lt__(self, other):
         return float(self) < other
